@@ -215,8 +215,12 @@ class C18(AstKindProp):
         if wt is None or ut is None:
             return None
         differs = fl.get("what", "wrapped and unwrapped artefacts parse to different interfaces") == "wrapped and unwrapped artefacts parse to different interfaces"
-        if c["kind"] == "numpydoc" and wt != ut and differs:
+        if c["kind"] == "numpydoc" and wt != ut and (differs or fl.get("what") == "wrapped artefact no longer parses"):
             return "C18-D20-numpydoc-continuation-lines-lose-their-indent"
+        import re
+
+        if c["kind"] == "function" and differs and re.search(r"Defaults\s*\n\s*to\b", wt):
+            return "C18-D20-announcement-phrase-split-by-the-wrap"
         if c["kind"] in ("rest", "function") and differs and all(": typ " in d for d in fl.get("diffs", [])):
             for line in wt.split("\n"):
                 ls = line.strip()
